@@ -358,6 +358,12 @@ func c01(c *fw.Ctx) {
 				o.charset = name
 				for tries := 0; ; tries++ {
 					o.text = csRandomText(rng, e, maxLen)
+					if tries == 0 && rng.Intn(5) == 0 {
+						// plain ASCII under the hint (every byte of its encoding below 0x80, also in the
+						// two-byte character sets): the designated character set still decides how it is read
+						o.text = fromAlphabet(rng, "abcdefghijklmnopqrstuvwxyz ,;!?0123456789", 1+rng.Intn(maxInt(1, maxLen/2)))
+						r.Tally("hinted_texts_plain_ascii")
+					}
 					b, ok := e.csEncode(o.text)
 					if !ok {
 						if tries > 20 {
